@@ -106,7 +106,7 @@ func (g *gen) doInstr(ci *cfgInfo, in ssa.Instruction) {
 		}
 	case *ssa.Phi:
 	case *ssa.FieldAddr, *ssa.IndexAddr:
-		if ia, ok := x.(*ssa.IndexAddr); ok && g.unit.NoPanic {
+		if ia, ok := x.(*ssa.IndexAddr); ok && g.noPanic() {
 			g.boundsCheck(ia)
 		}
 		// resolved lazily by locOf at loads and stores
@@ -196,7 +196,7 @@ func (g *gen) doInstr(ci *cfgInfo, in ssa.Instruction) {
 		g.doCall(x)
 	case *ssa.Panic:
 		g.exitReach[g.curBlock] = "false"
-		if g.unit.NoPanic {
+		if g.noPanic() {
 			g.oblige("nopanic", g.npName("panic"), "explicit panic unreachable", "false", x.Pos())
 		}
 	case *ssa.Jump:
@@ -320,7 +320,7 @@ func (g *gen) doBinOp(x *ssa.BinOp) {
 		g.unmodelled("binop "+x.Op.String()+" on "+a.Sort, x.Pos())
 		return
 	}
-	if g.unit.NoPanic && (x.Op == token.QUO || x.Op == token.REM) && !isFP(a.Sort) {
+	if g.noPanic() && (x.Op == token.QUO || x.Op == token.REM) && !isFP(a.Sort) {
 		g.oblige("nopanic", g.npName("div"), "divisor non-zero", not(sx("=", b.S, g.zeroOfSort(b.Sort, nil))), x.Pos())
 	}
 	g.setVal(x, t)
@@ -607,7 +607,7 @@ func (g *gen) doSlice(x *ssa.Slice) {
 		} else {
 			hi = sx("s.len", s)
 		}
-		if g.unit.NoPanic {
+		if g.noPanic() {
 			g.oblige("nopanic", g.npName("slice"), "slice bounds in range (high bound checked against len, not cap)",
 				and(g.idxLe(g.idxLit(0), lo), g.idxLe(lo, hi), g.idxLe(hi, sx("s.len", s))), x.Pos())
 		}
@@ -620,7 +620,7 @@ func (g *gen) doSlice(x *ssa.Slice) {
 		} else {
 			hi = g.idxLit(a.Len())
 		}
-		if g.unit.NoPanic && (x.Low != nil || x.High != nil) {
+		if g.noPanic() && (x.Low != nil || x.High != nil) {
 			g.oblige("nopanic", g.npName("slice"), "slice bounds in range",
 				and(g.idxLe(g.idxLit(0), lo), g.idxLe(lo, hi), g.idxLe(hi, g.idxLit(a.Len()))), x.Pos())
 		}
@@ -632,7 +632,7 @@ func (g *gen) doSlice(x *ssa.Slice) {
 		} else {
 			hi = sx("gstr.len", s)
 		}
-		if g.unit.NoPanic {
+		if g.noPanic() {
 			g.oblige("nopanic", g.npName("slice"), "string slice bounds in range",
 				and(g.idxLe(g.idxLit(0), lo), g.idxLe(lo, hi), g.idxLe(hi, sx("gstr.len", s))), x.Pos())
 		}
@@ -658,6 +658,13 @@ func (g *gen) doBuiltin(x *ssa.Call, b *ssa.Builtin) {
 		default:
 			if arr, ok := args[0].Type().Underlying().(*types.Array); ok {
 				g.setVal(x, g.idxLit(arr.Len()))
+				return
+			}
+			if mt, ok := args[0].Type().Underlying().(*types.Map); ok {
+				// the size of a map is a function of its key set
+				_, hc, ks, _ := g.mapComps(mt)
+				r := g.setVal(x, sx(g.mapLenFn(ks), sx("select", g.comp(hc, ""), a.S)))
+				g.assume(g.idxLe(g.idxLit(0), r.S))
 				return
 			}
 			r := g.freshVal(x)
@@ -1372,15 +1379,20 @@ func (g *gen) doTypeAssert(x *ssa.TypeAssert) {
 	if ts == sPtr {
 		g.assume(implies(ok, and(sx("<=", "0", val), sx("<", val, g.nalloc()))))
 	}
+	if ts == sSlice {
+		g.assume(implies(ok, g.wfSlice(val))) // every slice value, boxed or not, is well formed
+	}
 	if x.CommaOk {
 		vt := T{S: g.define("ta", ts, sx("ite", ok, val, g.zeroOfSort(ts, x.AssertedType))), Sort: ts, Signed: tsg, GoT: x.AssertedType}
 		g.tuples[x] = []T{vt, {S: ok, Sort: sBool}}
 		g.vals[x] = T{S: "TUPLE", Sort: "TUPLE"}
 		return
 	}
-	if g.unit.NoPanic {
+	if g.noPanic() {
 		g.oblige("nopanic", g.npName("typeassert"), "type assertion succeeds", ok, x.Pos())
 	}
+	// execution continues past a single-result type assertion only when it succeeded
+	g.assume(implies(g.curReach, ok))
 	g.vals[x] = T{S: g.define("ta", ts, val), Sort: ts, Signed: tsg, GoT: x.AssertedType}
 }
 
